@@ -295,6 +295,11 @@ Definition info_line (s : sstate) (depth eval : Z) : str :=
   ++ score_text eval.
 
 (* ---- get_best_move *)
+Definition opt_piece_eqb (a b : option piece) : bool :=
+  match a, b with Some p, Some q => piece_eqb p q | None, None => true | _, _ => false end.
+(* the previous best move is recognised by its squares and its promotion piece (engine.rs, `found the pv node`) *)
+Definition is_pv_of (b m : BoardState) : bool :=
+  opt_mv2_eqb (last_move m) (last_move b) && opt_piece_eqb (pawn_promotion m) (pawn_promotion b).
 Definition mark_pv (best : option BoardState) (moves : list BoardState) : list BoardState :=
   match best with
   | None => moves
@@ -302,7 +307,7 @@ Definition mark_pv (best : option BoardState) (moves : list BoardState) : list B
       (fix go (ms : list BoardState) : list BoardState :=
          match ms with
          | [] => []
-         | m :: t => if opt_mv2_eqb (last_move m) (last_move b) then with_oh m POS_INF :: t else m :: go t
+         | m :: t => if is_pv_of b m then with_oh m POS_INF :: t else m :: go t
          end) moves
   end.
 
